@@ -20600,7 +20600,20 @@ pub mod verif_hooks_c01 {
 		pub counterparty_max_accepted_htlcs: u16,
 	}
 
+	impl<SP: SignerProvider> Channel<SP>
+	where
+		SP::EcdsaSigner: ChannelSigner,
+	{
+		/// Sets `holder_dust_limit_satoshis` of a channel in any phase, for channels whose
+		/// handshake messages advertise a dust limit other than the built-in one (as a non-LDK
+		/// peer would).
+		pub fn verif_set_holder_dust_limit(&mut self, dust_limit_satoshis: u64) {
+			self.context_mut().holder_dust_limit_satoshis = dust_limit_satoshis;
+		}
+	}
+
 	impl<SP: SignerProvider> FundedChannel<SP> {
+
 		/// Read-only dump of the fields the update protocol depends on.
 		pub fn verif_chan_dump(&self) -> ChanDump {
 			let ctx = &self.context;
